@@ -3,6 +3,7 @@
 package message
 
 import (
+	"sync"
 	"context"
 	"strconv"
 
@@ -178,4 +179,64 @@ func HarnessC09SubscriberDecorators() {
 	vrt.Observe("seen", len(tr.ev))
 	vrt.Assert(ok, "subscriber decorators act on incoming messages in the order they were added and see the handler context")
 	cancel()
+}
+
+// HarnessC09DecoratorsRunHandlers: the decorators through the public API of a running router: handler A is started
+// by RunHandlers, handler B is added later and started by a second RunHandlers call (and a third, idle one). A
+// message through A and one through B each pass every publisher and subscriber decorator exactly once, in the
+// order of registration.
+func HarnessC09DecoratorsRunHandlers() {
+	np := vrt.Int("publisher.decorators", 0, 2)
+	ns := vrt.Int("subscriber.decorators", 0, 1)
+	r, _ := NewRouter(RouterConfig{}, watermill.NopLogger{})
+	r.isRunning = true
+	var mu sync.Mutex
+	var pubSeen, subSeen []int
+	for i := 0; i < np; i++ {
+		i := i
+		r.AddPublisherDecorators(MessageTransformPublisherDecorator(func(m *Message) {
+			mu.Lock()
+			pubSeen = append(pubSeen, i)
+			mu.Unlock()
+		}))
+	}
+	for i := 0; i < ns; i++ {
+		i := i
+		r.AddSubscriberDecorators(MessageTransformSubscriberDecorator(func(m *Message) {
+			mu.Lock()
+			subSeen = append(subSeen, i)
+			mu.Unlock()
+		}))
+	}
+	pub := &scriptedPublisher{}
+	subA, subB := &countingSubscriber{}, &countingSubscriber{}
+	ctx, cancel := context.WithCancel(context.Background())
+	defer cancel()
+	r.AddHandler("A", "ta", subA, "out", pub, PassthroughHandler)
+	vrt.Assert(r.RunHandlers(ctx) == nil, "first RunHandlers")
+	r.AddHandler("B", "tb", subB, "out", pub, PassthroughHandler)
+	vrt.Assert(r.RunHandlers(ctx) == nil, "second RunHandlers starts the late handler")
+	vrt.Assert(r.RunHandlers(ctx) == nil, "a further RunHandlers changes nothing")
+	vrt.Assert(subA.subscribes == 1 && subB.subscribes == 1, "each handler subscribed once")
+	for k, sub := range []*countingSubscriber{subA, subB} {
+		mu.Lock()
+		pubSeen, subSeen = nil, nil
+		mu.Unlock()
+		m := NewMessage("m", nil)
+		sub.chans[0] <- m
+		<-m.Acked()
+		mu.Lock()
+		okP := len(pubSeen) == np
+		for i := 0; okP && i < np; i++ {
+			okP = pubSeen[i] == i
+		}
+		okS := len(subSeen) == ns
+		for i := 0; okS && i < ns; i++ {
+			okS = subSeen[i] == i
+		}
+		mu.Unlock()
+		vrt.Assert(okP, "every publisher decorator acts exactly once on an outgoing message, in registration order, however often RunHandlers was called")
+		vrt.Assert(okS, "every subscriber decorator acts exactly once on an incoming message, in registration order")
+		vrt.Assert(len(pub.calls) == k+1, "the message reaches the real publisher once")
+	}
 }
